@@ -50,8 +50,11 @@ CHECKS = {
            "identity on meta-free strings. Tie: escape() and the three character tables over all 1,114,112 code points. Oracle: Glob::new(escape(s)) text/match/mutants.",
     'C19': "Proved: fold_map with the identity returns the same tree (bounds survive NaturalRange). Tie: tree/program vs model. Oracle: all conversion routes give identical "
            "observables (tree, program, queries, matches, capture spans borrowed/owned).",
-    'C02': "Proved (all trees): given pruning soundness of the component programs, the machine with the glob layer yields exactly the entries the complete program "
-           "matches, in pre-order, each once (C02_walk_yields_exactly_the_matches); kept => matched; a tree discard needs a rejected component. Tie: item sequences of real "
+    'C02': "Proved (all trees with valid names, all token trees with separator-free literals - proved of every tree the parser produces - any engine that decides the "
+           "regular languages): C02_walk_of_a_glob_yields_exactly_its_matches - the machine with the glob layer built from the encoder's complete program and component "
+           "programs yields exactly the entries the complete program matches, in pre-order, each once. Pruning soundness of the component programs is a theorem "
+           "(C02_component_programs_prune_soundly), no longer a hypothesis; table hypothesis (case folding never relates `/`) checked over all code points on every run. "
+           "Tie: token tree, complete program and component programs of every walked glob, and the item sequences of real "
            "walks over generated on-disk trees vs the model's run on the independently read tree. Oracle: independent read-back filtered by is_match.",
     'C03': "Proved (all trees, underlying stacks, depth windows): given what an exhaustive verdict promises (C09), not() yields exactly the entries of the underlying "
            "walk the negation does not match (C03_not_is_a_filter); per-entry characterisation of the filtrate. Tie: partition programs and item sequences. "
